@@ -238,6 +238,80 @@ def prior(S, kind, where):
     S.prove_eq(lp, ref if isinstance(ref, np.ndarray) else np.array(ref, dtype=object).reshape(()), "%s prior log_prob (%s)" % (kind, where))
 
 
+def intersect(S, kind):
+    """Interval.intersect / register_constraint(replace=False): the resulting constraint is the intersection of the bounds with the
+       SAME transform, its transform maps every raw value into that intersection, and the module uses it"""
+    from gpytorch.constraints import Interval, GreaterThan, LessThan
+    from symten import sym_softplus, sym_sigmoid
+    raw = S.randn(2)
+    R = S.sym_tensor(raw, "raw")
+    with S.mode():
+        if kind == "interval":
+            c1, c2 = Interval(0.1, 2.0), Interval(0.5, 3.0)
+        elif kind == "greater":
+            c1, c2 = GreaterThan(0.1), GreaterThan(0.7)
+        else:
+            c1, c2 = LessThan(2.0), LessThan(1.0)
+        B = [S.sym_tensor(c.lower_bound, "lo%d" % i) if kind != "less" else None for i, c in enumerate((c1, c2))]
+        U = [S.sym_tensor(c.upper_bound, "hi%d" % i) if kind != "greater" else None for i, c in enumerate((c1, c2))]
+        ci = S.must_not_raise("Interval.intersect of two %s constraints" % kind, lambda: c1.intersect(c2))
+        S.check_concrete(type(ci).__name__ == type(c1).__name__ and ci._transform is c1._transform, "intersection keeps class and transform", type(ci).__name__)
+        val = ci.transform(raw)
+        k = gpytorch.kernels.RBFKernel(lengthscale_constraint=GreaterThan(0.1))
+        S.must_not_raise("register_constraint(replace=False)", lambda: k.register_constraint("raw_lengthscale", GreaterThan(0.7), replace=False))
+        S.check_concrete(float(k.raw_lengthscale_constraint.lower_bound) == 0.7, "register_constraint(replace=False) installs the intersection",
+                         str(float(k.raw_lengthscale_constraint.lower_bound)))
+    from symten.ops import s_max
+    from symten.core import ite, sym_cmp
+    if kind == "interval":
+        lo = s_max(B[0][()], B[1][()]); hi = -s_max(-U[0][()], -U[1][()])
+        ref = np.array([sym_sigmoid(R[i]) * (hi - lo) + lo for i in range(2)], dtype=object)
+    elif kind == "greater":
+        lo = s_max(B[0][()], B[1][()])
+        ref = np.array([sym_softplus(R[i]) + lo for i in range(2)], dtype=object)
+    else:
+        hi = -s_max(-U[0][()], -U[1][()])
+        ref = np.array([-sym_softplus(-R[i]) + hi for i in range(2)], dtype=object)
+    S.prove_eq(val, ref, "intersection(%s).transform(raw) = transform onto [max lower, min upper]" % kind)
+
+
+def prior_reassign(S, kind):
+    """a prior whose hyper-parameter is RE-ASSIGNED after construction (prior.loc = ..., prior.scale = ...) evaluates its density
+       at the new value and reads the new value back (transformed-distribution priors keep a base distribution in sync)"""
+    x = S.rand(2, lo=0.4, hi=1.6)
+    new_a, new_b = S.randn(2), S.rand(2, lo=0.5, hi=2.0)
+    if kind == "normal":
+        pr = P.NormalPrior(torch.zeros(2), torch.ones(2))
+    elif kind == "lognormal":
+        pr = P.LogNormalPrior(torch.zeros(2), torch.ones(2))
+    elif kind == "halfcauchy":
+        pr = P.HalfCauchyPrior(torch.ones(2))
+    elif kind == "halfnormal":
+        pr = P.HalfNormalPrior(torch.ones(2))
+    elif kind == "gamma":
+        pr = P.GammaPrior(torch.tensor([2.0, 3.5]), torch.ones(2))
+    A = S.sym_tensor(new_a, "newloc")
+    B = S.sym_tensor(new_b, "newscale", positive=True)
+    X = S.sym_tensor(x, "x", positive=(kind != "normal"))
+    with S.mode():
+        if kind in ("normal", "lognormal"):
+            pr.loc = new_a
+            pr.scale = new_b
+            ps = (A, B)
+            S.prove_eq(pr.loc, A, "%s prior: loc reads back the re-assigned value" % kind)
+        elif kind == "gamma":
+            pr.rate = new_b
+            ps = (as_sym_arr(SH.get(pr.concentration)), B)
+        else:
+            pr.scale = new_b
+            ps = (B,)
+        if kind != "gamma":
+            S.prove_eq(pr.scale, B, "%s prior: scale reads back the re-assigned value" % kind)
+        lp = pr.log_prob(x)
+    ref = np.array([_ref_prior(kind, X[i], tuple(q[i] for q in ps)) for i in range(2)], dtype=object)
+    S.prove_eq(lp, ref, "%s prior log_prob after re-assigning its hyper-parameters" % kind)
+
+
 def registered_prior(S):
     """a prior registered on a constrained parameter evaluates the density of the CONSTRAINED value; sample_from_prior stores the sample"""
     k = K.ScaleKernel(K.RBFKernel(lengthscale_prior=P.GammaPrior(2.0, 3.0)), outputscale_prior=P.NormalPrior(1.0, 0.5))
@@ -289,5 +363,9 @@ def scenarios(tier, seed):
         add("prior", kind=kind, where="inside")
     for w in ("inside", "left", "right"):
         add("prior", kind="smoothedbox", where=w)
+    for kind in ("normal", "lognormal", "halfcauchy", "halfnormal", "gamma"):
+        add("prior_reassign", kind=kind)
+    for kind in ("interval", "greater", "less"):
+        add("intersect", kind=kind)
     add("registered_prior")
     return out
